@@ -51,6 +51,25 @@ class Env:
 UNBOUND = object()
 
 
+def x_dataclass_fields(I, a, k):
+    """dataclasses.fields(obj or class): the Field objects (name, init, repr, compare) in dataclass order, read from the class source"""
+    o = I.force(a[0]) if a else None
+    cinfo = o.cls if isinstance(o, SObj) else getattr(o, "info", None)
+    if not isinstance(cinfo, ClassInfo) or not cinfo.is_dataclass:
+        raise OutsideSubset("dataclasses.fields of something that is not a dataclass of the repository")
+    out = []
+    for (n, ann, dflt, owner) in cinfo.dataclass_fields():
+        if "InitVar" in ast.unparse(ann):
+            continue
+        flags = {"init": True, "repr": True, "compare": True}
+        if dflt is not None and isinstance(dflt, ast.Call) and ast.unparse(dflt.func) in ("field", "dataclasses.field"):
+            for kw in dflt.keywords:
+                if kw.arg in flags:
+                    flags[kw.arg] = ast.literal_eval(kw.value)
+        out.append(SObj("dataclasses.Field", {"name": n, **flags}))
+    return tuple(out)
+
+
 class Engine:
     """Global (per run) configuration: source index, summaries (callee contracts), externals."""
 
@@ -58,6 +77,7 @@ class Engine:
         self.index = index or SourceIndex()
         self.summaries = {}     # qualname -> fn(I, self_or_None, args, kwargs) -> value
         self.externals = {}     # 'mod.attr' -> fn(I, args, kwargs) -> value
+        self.externals["dataclasses.fields"] = x_dataclass_fields
         self.max_depth = 12
         self.class_attr_cache = {}
         self.global_cache = {}
